@@ -333,7 +333,17 @@ fn deeppath_job(ctx: &mut Ctx, res: &mut ShardResult) {
     let mut idx = 0u64;
     for n in 58..=66usize {
         for sep in ["/", "\\"] {
-            let p = vec!["a"; n].join(sep);
+            // plain, and with `..` components at and around the depth where the
+            // canonicaliser's inline component stack is full: one `..` after
+            // n components, k of them at the end, `.` components in between
+            let plain = vec!["a"; n].join(sep);
+            let mut paths = vec![plain.clone()];
+            for k in [1usize, 2, 3, 7, n] {
+                paths.push(format!("{}{}{}", plain, sep, vec![".."; k].join(sep)));
+                paths.push(format!("{}{}{}{}x", plain, sep, vec![".."; k].join(sep), sep));
+            }
+            paths.push(format!("{}{}.{}..{}b{}..{}..{}c", plain, sep, sep, sep, sep, sep, sep));
+            for p in paths {
             for text in [
                 format!("build {}: phony\n", p),
                 format!("build o: phony {}\n", p),
@@ -347,6 +357,7 @@ fn deeppath_job(ctx: &mut Ctx, res: &mut ShardResult) {
                 }
                 ctx.marker.set(idx, text.as_bytes());
                 check_manifest(text.as_bytes(), &["build.ninja"], &job, res);
+            }
             }
         }
     }
